@@ -6,8 +6,8 @@
     their codes as [N] (0 = NUL).  Every function below is the C function of
     the same name with its size_t arithmetic spelled out ([wrap64], [sub64]);
     the functions that only exist as static inlines in the header (size,
-    capacity, reserve, insert, append, set_str, compare, find, ...) are
-    composed exactly as the header composes them.
+    capacity, reserve, data, insert, append, append_str_n, set_str, compare,
+    find, ...) are composed exactly as the header composes them.
 
     Accesses to character storage are checked against the live block
     (VectorModel.slot / range_ok): outside it the result is [Flt].  The loops
@@ -121,6 +121,13 @@ Section Str.
     | Flt => Flt
     end.
 
+  (** cstl_string_at_const: return at((struct cstl_STRING * )s, i) *)
+  Definition s_at_const (al : alloc) (v : vec) (i : N) : res (N * N) := s_at al v i.
+
+  (** cstl_string_data = cstl_vector_data: the installed buffer pointer
+      ([None] = NULL; otherwise byte offset 0 of the block) *)
+  Definition s_data (v : vec) : option nat := base v.
+
   (** __resize *)
   Definition s__resize (al : alloc) (v : vec) (n : N) : res (alloc * vec) :=
     if negb v0 && (n =? SIZE_MAX) then Abt else      (* n + 1 is not representable *)
@@ -194,6 +201,10 @@ Section Str.
     | Abt => Abt
     | Flt => Flt
     end.
+
+  (** append_str_n(s, str, len) = insert_str_n(s, size(s), str, len) *)
+  Definition append_str_n (al : alloc) (v : vec) (src : list N) (len : N) : res (alloc * vec) :=
+    insert_str_n al v (s_size v) src len.
 
   (** substr_prep: the clamped length *)
   Definition substr_prep (v : vec) (pos len : N) : res N :=
@@ -342,7 +353,10 @@ Inductive sop :=
 | SFindStr (s : nat) (cs : list N) (pos : N)
 | SFind (s : nat) (pos : N) (t : nat)
 | SCompare (a b : nat)
-| SCompareStr (a : nat) (cs : list N).
+| SCompareStr (a : nat) (cs : list N)
+| SAppendStrN (s : nat) (n : N) (cs : list N)      (* the first n characters of cs, NUL allowed *)
+| SAtConst (s : nat) (i : N)
+| SData (s : nat).
 
 (** character codes representable as non-negative values of the character
     type (char: 0..127, wchar_t: 0..2^31-1), so that signed/unsigned
@@ -351,6 +365,24 @@ Definition char_ok (w c : N) : bool := if w =? 1 then c <? 128 else c <? 2147483
 Definition lit_ok (w : N) (cs : list N) : bool := forallb (fun c => char_ok w c && negb (c =? 0)) cs.
 
 Definition str_init (w : N) (n : nat) : sys := sys_init (repeat (w, false, false) n).
+
+(** What a caller observes through the pointer cstl_string_data returned:
+    [1] for NULL; otherwise 0, the block id and the byte offset inside it
+    and - once the vector holds elements, i.e. the buffer holds a string -
+    whether data[size] is NUL (1/0; -1 if the size+1 cells are not inside
+    the block, in which case nothing is read) and the characters
+    data[0 .. size).  Storage that was only reserved is not read. *)
+Definition data_obs (al : alloc) (v : vec) : list Z :=
+  match s_data v with
+  | None => [1%Z]
+  | Some b =>
+    0%Z :: Z.of_nat b :: 0%Z ::
+    (if count v =? 0 then []
+     else if range_ok al v 0 (s_size v + 1)
+          then (if nth (N.to_nat (s_size v)) (elems v) POISON =? 0 then 1%Z else 0%Z)
+               :: map Z.of_N (firstn (N.to_nat (s_size v)) (elems v))
+          else [(-1)%Z])
+  end.
 
 Section SStep.
   Variable ok : nat -> N -> bool.
@@ -423,6 +455,24 @@ Section SStep.
     | SCompare a b => with_vec s a (fun va => with_vec s b (fun vb => liftz s (compare v0 al va vb)))
     | SCompareStr a cs => with_vec s a (fun va =>
         if lit_ok (esize va) cs then liftz s (compare_str v0 al va cs) else Precond)
+    | SAppendStrN i n cs => with_vec s i (fun v =>
+        if forallb (char_ok (esize v)) cs then
+          if n <=? N.of_nat (length cs) then lifts s i (append_str_n ok v0 al v cs n)
+          else
+            (* the source holds fewer than n characters: reading them is the
+               caller's error - unless prep_insert aborts first *)
+            match prep_insert ok v0 al v (s_size v) n with
+            | Abt => Abort
+            | _ => Precond
+            end
+        else Precond)
+    | SAtConst i k => with_vec s i (fun v =>
+        match s_at_const al v k with
+        | Ok (off, c) => Done s [Z.of_N off; Z.of_N c]
+        | Abt => Abort
+        | Flt => Fault
+        end)
+    | SData i => with_vec s i (fun v => Done s (data_obs al v))
     end.
 End SStep.
 
